@@ -19,12 +19,18 @@ CHECKS = {
     text="Interchangeability of the two forms decided for all values on bounded trees and on all raw token strings up to length 6/7 over an 11-token alphabet.", ref="4/C03"),
  "C04": dict(engine="S", technique="same engine; reference binds variables BY NAME, implementation by sorted position; solver decides equality; arity errors asserted per path",
     text="Variable discovery/order/binding decided for all values over six name pools (ASCII, Greek, braced arbitrary text, 20 names) and seeded occurrence patterns; arity errors for every slice length 0..n+3.", ref="4/C04"),
+ "C05": dict(engine="S", technique="real FlatEx/DeepEx::partial executed at a term-valued data type over the transplanted default table; is_zero/is_one shortcuts forked by a solver-backed decision oracle; z3 (QF_UFNRA with ground-instantiated laws) decides derivative term = dual-number reference under the domain conjunct",
+    text="For every tree of a ~1300-tree pool over + - * / ^, unary +/- and the 18 differentiable functions, every variable and four forms (flat, deep, deep>flat, flat>deep), the derivative expression returned by the real code is decided equal to the textbook derivative at ALL points of the interior of the domain (reals, elementary functions uninterpreted); operators without a rule must give Err. Tests check a handful of expressions at a handful of points by finite differences.", ref="4/C05"),
  "C06": dict(engine="S", technique="exhaustive path enumeration at T = Sym under catch_unwind over tree programs and raw token sequences through every pipeline incl. follow-up calls; concrete entry points executed on enumerated inputs",
     text="Panic-freedom of every explored path (a path covers all values). The tokenizer on arbitrary Unicode and the stack-depth claim are outside (stated).", ref="4/C06"),
  "C07": dict(engine="S", technique="exhaustive enumeration of raw token sequences and of single-point damages of well-formed texts through the real parsers at T = Sym; acceptance compared with the statement-level well-formedness predicate",
     text="Every malformed text in the enumerated space is rejected by all three parser entry points; acceptance is value-independent so this part is path enumeration inside the symbolic executor, not a solver query (said so in the evidence).", ref="4/C07"),
  "C08": dict(engine="S", technique="same engine; every subset of alphabetic binary nodes rendered in call form at every position, nesting depth up to 3/4; solver decides value = tree",
     text="Call notation decided equivalent to ((a) op (b)) for all values on all bounded trees/call masks/renderings.", ref="4/C08"),
+ "C09": dict(engine="S", technique="same calculus engine; index sequences of length 0..3/4 incl. out-of-range entries; identities (iter = sequential, nth = repeated, order 0 = identity, mixed partials commute) decided in QF_UFNRA; variable lists and Err outcomes asserted per path",
+    text="Differentiation bookkeeping decided for a 12-expression pool x every index sequence up to the bound, flat and deep.", ref="4/C09"),
+ "C10": dict(engine="S", technique="same calculus engine; every (start, step[, step]) history of operate_unary/operate_binary/helpers/overloaded + - * / pow neg over a 12-expression pool; value = operator applied to operand values decided in QF_UFNRA under the domain of the unsimplified form; neutral-element shortcuts forked by the oracle (symbolic-literal pass)",
+    text="Operator application decided a homomorphism (value and sorted-union variable list) for all assignments on ~16000 histories over a pool with overlapping/disjoint variables, constants 0/1, and folded constants; unknown names are errors.", ref="4/C10"),
  "C11": dict(engine="S", technique="same engine; FlatEx::subs / DeepEx::subs vs simultaneous tree substitution, solver-decided per (expression, map)",
     text="Substitution decided simultaneous and variable lists exact for an 11-expression x 8-replacement pool over 35/104 tables.", ref="4/C11"),
  "C12": dict(engine="S", technique="same engine; parse(unparse(e)) and serde_json round trips decided equal to the tree; unparse identity by string equality",
